@@ -30,6 +30,9 @@ def bad_values(obj, name, ann, default):
         clv = type(obj).conditional_list_values()
         if name in lv or name in clv:
             out.append(("outside-allowed-list", SourceObject("banana")))
+            # "no value" is not one of the allowed values either
+            from efootprint.abstract_modeling_classes.explainable_objects import EmptyExplainableObject
+            out.append(("no-value-for-a-restricted-parameter", EmptyExplainableObject()))
         out.append(("wrong-type:quantity", SourceValue(3 * u.kg)))
         out.append(("wrong-type:str", "autoscaling"))
     elif "List" in s or "list" in s:
@@ -90,15 +93,20 @@ def _case(args):
 
 def _grouped_case(args):
     """multi-change update: a valid link / numeric change grouped with an invalid change, in both orders"""
-    first, order = args
+    first, order = args[:2]
+    inv_kind = args[2] if len(args) > 2 else "wrong-dimension"
     H.deterministic_ids(8)
-    out = {"case": f"grouped[{first}]+invalid@{order}", "status": "ok", "diff": [], "annot": "plain"}
+    out = {"case": f"grouped[{first}]+invalid[{inv_kind}]@{order}", "status": "ok", "diff": [], "annot": "plain"}
     try:
         T = H.topologies()
         b = H.build(T["two_servers_repeated_job"])
         valid = {"relink-server": [b["job0"].server, b["srv1"]], "relink-network": [b["up0"].network, b["net0"]],
                  "numeric": [b["job0"].ram_needed, H.Q((70, "MB"))], "list": [b["step0"].jobs, [b["job0"], b["job1"]]]}[first]
         invalid = [b["job1"].data_transferred, SourceValue(3 * u.s)]
+        if inv_kind == "outside-allowed-list":
+            # a restricted parameter of an object of ANOTHER class than the valid change's object
+            # (a fixed instance count is not allowed on a serverless server: refused by the allowed-values tables of Server)
+            invalid = [b["srv1"].fixed_nb_of_instances, H.Q((3, "dimensionless"))]
         changes = [valid, invalid] if order == "valid-first" else [invalid, valid]
         objs = list(b.obj.values())
         before = H.identity_snapshot(b.system)
@@ -138,14 +146,14 @@ def all_cases():
 
 def classify(r):
     if r["case"].startswith("grouped"):
+        if "invalid[outside-allowed-list]" in r["case"] and r["status"] == "refused-but-model-changed": return "D8"
         return f"C14|{r['case']}|{r['status']}|{','.join(r['diff'])[:200]}"
     kind = r["case"].split(":", 1)[1].split("@")[0]
     phase = r["case"].rsplit("@", 1)[1]
     if r["status"] == "accepted":
         if r["annot"] == "union": return "D9"
         if kind == "list-with-wrong-class" and phase == "construct": return "D17"
-        if kind == "outside-allowed-list": return "D8"
-    if r["status"] == "refused-but-model-changed" and kind == "outside-allowed-list": return "D8"
+    if r["status"] == "refused-but-model-changed" and kind in ("outside-allowed-list", "no-value-for-a-restricted-parameter"): return "D8"
     if r["status"] == "refused-but-model-changed" and r["annot"] == "union": return "D9"
     return f"C14|{r['case']}|{r['status']}|{','.join(r['diff'])[:200]}"
 
@@ -154,6 +162,7 @@ def run(tier, seed, procs=16):
     items = all_cases()
     res = H.run_parallel(_case, items, procs)
     res += H.run_parallel(_grouped_case, [(f, o) for f in ("relink-server", "relink-network", "numeric", "list") for o in ("valid-first", "invalid-first")], procs)
+    res += H.run_parallel(_grouped_case, [(f, o, "outside-allowed-list") for f in ("relink-server", "relink-network", "numeric", "list") for o in ("valid-first", "invalid-first")], procs)
     viol, samples, nontrivial = [], [], set()
     for r in res:
         if r["status"] == "harness-error": raise RuntimeError("bounded harness error: " + r.get("error", ""))
